@@ -87,10 +87,8 @@ func declaredJ2K(d []byte) (uint64, bool) {
 			if tiles > 1<<16 {
 				s = Huge
 			}
-			// a tile larger than the image makes per-tile buffers follow the tile size
-			if t := sat(sat(minU(xt, xs+xt), minU(yt, ys+yt)), c); t > s && (xt > xs || yt > ys) {
-				s = t
-			}
+			// A tile larger than the image is legal and is clipped to the image area (T.800 B.3):
+			// it does not enlarge what the header declares.
 		}
 		// sub-sampling factors of 0 are "huge" as well
 		for k := 0; k < int(c) && 36+3*k+2 < len(p); k++ {
@@ -106,9 +104,3 @@ func declaredJ2K(d []byte) (uint64, bool) {
 	return best, found
 }
 
-func minU(a, b uint64) uint64 {
-	if a < b {
-		return a
-	}
-	return b
-}
